@@ -314,6 +314,10 @@ def verify_unit(unit):
         if lenient is None:
             lenient = {"reason": "loop(s) without invariant: %s" % "; ".join(meta["unannotated_loops"]), "dropped": [], "dropped_rewrites": []}
         lenient["dropped"] = list(lenient["dropped"]) + list(meta["unannotated_loops"])
+    if meta.get("unannotated_closures"):
+        if lenient is None:
+            lenient = {"reason": "closure(s) without specification: %s" % "; ".join(meta["unannotated_closures"]), "dropped": [], "dropped_rewrites": []}
+        lenient["dropped"] = list(lenient["dropped"]) + list(meta["unannotated_closures"])
     out["lenient"] = lenient
     return out
 
